@@ -331,3 +331,85 @@ func (e *Engine) execSelect(st *State, f *Frame, i *ssa.Select) {
 		e.branch(st, conds, func(s *State, k int) { result(s, ready[k]) })
 	}
 }
+
+// Mutexes. sync.Mutex and sync.RWMutex keep their ownership in the state: Lock on a mutex that is
+// write-held or read-held, and RLock on one that is write-held, block the thread like an empty
+// channel does (the call is retried when the thread runs again). A waiting writer does not hold off
+// new readers (Go's writer preference is not modelled).
+type muKey struct {
+	obj ObjID
+	off uint64
+}
+
+type muState struct {
+	writer  bool
+	readers int
+}
+
+func muKeyOf(v Value) (muKey, bool) {
+	p, ok := v.(Pointer)
+	if !ok || p.off == nil || !p.off.k {
+		return muKey{}, false
+	}
+	return muKey{p.obj, p.off.c}, true
+}
+
+// muOp: op is "lock", "unlock", "rlock", "runlock", "trylock", "tryrlock"
+func (e *Engine) muOp(st *State, recv Value, op string) Value {
+	k, ok := muKeyOf(recv)
+	if !ok {
+		if op == "trylock" || op == "tryrlock" {
+			return Bool(true)
+		}
+		return TupleV{}
+	}
+	m := st.mus[k]
+	set := func() {
+		if st.mus == nil {
+			st.mus = map[muKey]muState{}
+		}
+		if m == (muState{}) {
+			delete(st.mus, k)
+		} else {
+			st.mus[k] = m
+		}
+	}
+	switch op {
+	case "lock", "trylock":
+		if m.writer || m.readers > 0 {
+			if op == "trylock" {
+				return Bool(false)
+			}
+			modelsUsed["sync.Mutex/RWMutex: Lock on a held mutex blocks the goroutine"]++
+			e.block(st, st.top())
+			return TupleV{}
+		}
+		m.writer = true
+		set()
+		st.stalled = 0
+	case "rlock", "tryrlock":
+		if m.writer {
+			if op == "tryrlock" {
+				return Bool(false)
+			}
+			modelsUsed["sync.Mutex/RWMutex: Lock on a held mutex blocks the goroutine"]++
+			e.block(st, st.top())
+			return TupleV{}
+		}
+		m.readers++
+		set()
+		st.stalled = 0
+	case "unlock":
+		m.writer = false
+		set()
+	case "runlock":
+		if m.readers > 0 {
+			m.readers--
+		}
+		set()
+	}
+	if op == "trylock" || op == "tryrlock" {
+		return Bool(true)
+	}
+	return TupleV{}
+}
